@@ -103,6 +103,8 @@ type mutant struct {
 		New  string `json:"new"`
 	} `json:"edits"`
 	Patch string `json:"-"` // path of a unified diff (seeded by an independent agent)
+	// Benign: a behaviour-preserving edit (mutants/benign/<id>.diff): the check must stay silent
+	Benign bool `json:"-"`
 }
 
 func loadMutants(verif, prop string) []mutant {
@@ -141,6 +143,12 @@ func loadMutants(verif, prop string) []mutant {
 				out = append(out, mutant{ID: "seeded-" + meta.ID, Props: []string{prop}, Expect: meta.Expect, Patch: filepath.Join(filepath.Dir(mj), "patch.diff")})
 			}
 		}
+	}
+	// behaviour-preserving edits: every property must stay silent on each
+	bd, _ := filepath.Glob(filepath.Join(verif, "mutants", "benign", "*.diff"))
+	sort.Strings(bd)
+	for _, d := range bd {
+		out = append(out, mutant{ID: "benign-" + strings.TrimSuffix(filepath.Base(d), ".diff"), Props: []string{prop}, Patch: d, Benign: true})
 	}
 	return out
 }
@@ -248,6 +256,14 @@ func selfTest(e *Env) {
 					}
 				}
 			}
+			if m.Benign {
+				if code == 0 && !strings.Contains(string(out), "VIOLATION") {
+					results[i] = res{m.ID, "SILENT", ""}
+				} else {
+					results[i] = res{m.ID, "FALSE-ALARM", "the check fired on a behaviour-preserving edit: " + firstViolation(string(out))}
+				}
+				return
+			}
 			switch {
 			case !fired:
 				results[i] = res{m.ID, "MISSED", fmt.Sprintf("the check stayed silent (exit %d)", code)}
@@ -260,7 +276,7 @@ func selfTest(e *Env) {
 	}
 	wg.Wait()
 	var summary []string
-	det := 0
+	det, silent := 0, 0
 	for _, r := range results {
 		s := r.id + ": " + r.status
 		if r.detail != "" {
@@ -270,13 +286,16 @@ func selfTest(e *Env) {
 		switch r.status {
 		case "DETECTED":
 			det++
-		case "MISSED", "WRONGKEY":
+		case "SILENT":
+			silent++
+		case "MISSED", "WRONGKEY", "FALSE-ALARM":
 			e.R.SelfTest = append(e.R.SelfTest, s)
 		}
 	}
 	e.R.Extra["selftest"] = summary
 	e.R.Counts["selftest_mutants"] = len(results)
 	e.R.Counts["selftest_detected"] = det
+	e.R.Counts["selftest_benign_silent"] = silent
 }
 
 func lastLine(s string) string {
@@ -285,4 +304,16 @@ func lastLine(s string) string {
 		return s[i+1:]
 	}
 	return s
+}
+
+func firstViolation(out string) string {
+	for _, l := range strings.Split(out, "\n") {
+		if strings.HasPrefix(l, "VIOLATION rule") || strings.HasPrefix(l, "UNDECIDED") {
+			if len(l) > 240 {
+				l = l[:240]
+			}
+			return l
+		}
+	}
+	return lastLine(out)
 }
